@@ -520,6 +520,42 @@ namespace {
          }
          rep.count("traces");
       }
+      // parameter lists whose members repeat a name (unnamed parameters all carry the unnamed identifier): every sequence of
+      // <= 4 additions over 2 names x 2 types; each addition is a member of its own
+      for (int len = 1; len <= 4; ++len)
+         for (int code = 0; code < (1 << (2 * len)); ++code) {
+            ipr::impl::Lexicon lex;
+            ipr::impl::Translation_unit unit{ lex };
+            auto* map = lex.make_mapping(*unit.global_region(), ipr::Mapping_level{ 1 });
+            const ipr::Name* nm[2] = { &lex.get_identifier(u8""), &lex.get_identifier(u8"p") };
+            const ipr::Type* ty[2] = { &lex.int_type(), &lex.double_type() };
+            HWitness rw;
+            rw.container = "parameter-list(repeated-names)";
+            std::vector<const ipr::Parameter*> made;
+            std::vector<const ipr::Type*> types;
+            for (int i = 0; i < len; ++i) {
+               const int n = (code >> (2 * i)) & 1, t = (code >> (2 * i + 1)) & 1;
+               rw.ops.push_back(n * 2 + t);
+               rw.text += std::string(n ? "p" : "<unnamed>") + ":t" + std::to_string(t) + " ";
+               made.push_back(map->param(*nm[n], *ty[t]));
+               types.push_back(ty[t]);
+               rep.count("transitions"); rep.count("states");
+            }
+            const ipr::Parameter_list& pl = map->parameters();
+            if (pl.size() != std::size_t(len)) { hfail("C07:parameter-list:size", rw, "a parameter list given " + std::to_string(len) + " parameters (some sharing a name) lists " + std::to_string(pl.size())); continue; }
+            std::size_t i = 0;
+            for (auto& p : pl.elements()) {
+               if (&p != made[i]) { hfail("C07:parameter-list:order", rw, "parameter #" + std::to_string(i) + " is not the one returned when it was added"); break; }
+               if (std::size_t(p.position()) != i) hfail("C07:parameter-list:position", rw, "parameter #" + std::to_string(i) + " reports position " + std::to_string(std::size_t(p.position())));
+               if (&p.type() != types[i]) hfail("C07:parameter-list:type", rw, "parameter #" + std::to_string(i) + " does not report its type");
+               if (&p.master() != static_cast<const ipr::Decl*>(&p) or p.decl_set().size() != 1) hfail("C07:parameter-list:decl-set-not-singleton", rw, "a parameter is not its own singleton declaration-set");
+               if (not pl.region().bindings()[p.name()].is_valid()) hfail("C07:parameter-list:lookup-not-found", rw, "the name of parameter #" + std::to_string(i) + " is not found in the list's scope");
+               ++i;
+            }
+            for (std::size_t a = 0; a < made.size(); ++a) for (std::size_t b = a + 1; b < made.size(); ++b) if (made[a] == made[b]) hfail("C07:parameter-list:order", rw, "two additions returned the same parameter");
+            if (auto prod = ipr::util::view<ipr::Product>(pl.type())) { if (prod->size() != std::size_t(len)) hfail("C07:parameter-list:type-size", rw, "the list's type has the wrong number of components"); }
+            rep.count("traces");
+         }
       // long member lists
       {
          ipr::impl::Lexicon lex;
